@@ -209,16 +209,63 @@ theorem pregrow_item (g : Nat) (e : Ty) (top : Bool) (xs : List Init) (i : Nat) 
     | cons P ps' =>
       obtain ⟨s, rfl⟩ := hps P (by simp)
       rw [List.foldlM_cons, List.foldlM_cons, modifyAt_pad]
+  have nob : ∀ (tok : ITok) (r : List ITok), tok ≠ .lbrace →
+      initItem g (.inc e) top (.arr xs) ((i :: q0) :: rest) (tok :: r) fl =
+        initItem g (.inc e) top (.arr (padI xs i (zeroOf e))) ((i :: q0) :: rest) (tok :: r) fl := by
+    intro tok r hb
+    rw [initItem_tok_multi _ _ _ _ _ _ _ _ _ hb, initItem_tok_multi _ _ _ _ _ _ _ _ _ hb]
+    cases hd : ((i :: q0) :: rest).mapM (fun p => descend (.inc e) top tok (p.length + (Ty.inc e).nodes + 2) p) with
+    | error err => rfl
+    | ok targets =>
+      have htg : ∀ q ∈ targets, ∃ s, q = i :: s := by
+        have key : ∀ (ps ts : List (List Nat)), (∀ q ∈ ps, ∃ s, q = i :: s) →
+            ps.mapM (fun p => descend (.inc e) top tok (p.length + (Ty.inc e).nodes + 2) p) = .ok ts → ∀ q ∈ ts, ∃ s, q = i :: s := by
+          intro ps
+          induction ps with
+          | nil => intro ts _ h; simp [List.mapM_nil, pure, Except.pure] at h; subst h; simp
+          | cons P ps' ih =>
+            intro ts hps h
+            obtain ⟨t0, ts', h0, h1, rfl⟩ := mapM_cons_ok h
+            obtain ⟨s, rfl⟩ := hps P (by simp)
+            obtain ⟨s', rfl⟩ := descend_prefix _ _ _ _ _ _ h0
+            intro q hq
+            simp only [List.mem_cons] at hq
+            rcases hq with rfl | hq
+            · exact ⟨s ++ s', rfl⟩
+            · exact ih ts' (fun q' hq' => hps q' (by simp [hq'])) h1 q hq
+        exact key _ _ hp hd
+      have htne : targets ≠ [] := by
+        obtain ⟨t0, ts', _, _, rfl⟩ := mapM_cons_ok hd
+        simp
+      simp only [ok_bind]
+      have h1 : targets.any (nonScalarTouched (.inc e) (.arr xs)) =
+          targets.any (nonScalarTouched (.inc e) (.arr (padI xs i (zeroOf e)))) :=
+        any_congr' (fun q hq => by
+          obtain ⟨s, rfl⟩ := htg q hq
+          simp only [nonScalarTouched]
+          rw [(pad_tests xs i (zeroOf e) hz s).1])
+      have h2 : targets.any (switchesUnion (.arr xs)) = targets.any (switchesUnion (.arr (padI xs i (zeroOf e)))) :=
+        any_congr' (fun q hq => by obtain ⟨s, rfl⟩ := htg q hq; exact (pad_tests xs i (zeroOf e) hz s).2.1)
+      have h3 : targets.any (exprAbove (.arr xs)) = targets.any (exprAbove (.arr (padI xs i (zeroOf e)))) :=
+        any_congr' (fun q hq => by obtain ⟨s, rfl⟩ := htg q hq; exact (pad_tests xs i (zeroOf e) hz s).2.2)
+      rw [← h1, ← h2, ← h3, hfold (fun P => storeTok (.inc e) top tok P) _ htg htne]
   cases toks with
   | nil => rfl
   | cons tok r =>
     by_cases hb : tok = .lbrace
     · subst hb
       cases hsub : subTy (.inc e) (i :: q0) with
-      | none => unfold initItem initItemWith; simp only [hsub]; rfl
+      | none => unfold initItem initItemWith initTokWith; simp only [hsub]; rfl
       | some t =>
-        rw [initItem_brace_multi _ _ _ _ _ _ _ _ hsub (growable_inc_cons e top i q0),
-          initItem_brace_multi _ _ _ _ _ _ _ _ hsub (growable_inc_cons e top i q0)]
+        cases hbl : bracedLit t r with
+        | some tr =>
+          obtain ⟨tok1, r1⟩ := tr
+          rw [initItem_bracedLit _ _ _ _ _ _ _ _ hsub (growable_inc_cons e top i q0) hbl,
+            initItem_bracedLit _ _ _ _ _ _ _ _ hsub (growable_inc_cons e top i q0) hbl]
+          exact nob tok1 r1 (bracedLit_stops hbl).2
+        | none =>
+        rw [initItem_brace_multi _ _ _ _ _ _ _ _ hsub (growable_inc_cons e top i q0) hbl,
+          initItem_brace_multi _ _ _ _ _ _ _ _ hsub (growable_inc_cons e top i q0) hbl]
         have h1 : ((i :: q0) :: rest).any (touched (.arr xs)) = ((i :: q0) :: rest).any (touched (.arr (padI xs i (zeroOf e)))) :=
           any_congr' (fun q hq => by obtain ⟨s, rfl⟩ := hp q hq; exact (pad_tests xs i (zeroOf e) hz s).1)
         have h3 : ((i :: q0) :: rest).any (exprAbove (.arr xs)) = ((i :: q0) :: rest).any (exprAbove (.arr (padI xs i (zeroOf e)))) :=
@@ -227,42 +274,7 @@ theorem pregrow_item (g : Nat) (e : Ty) (top : Bool) (xs : List Init) (i : Nat) 
         congr 1
         funext sub
         rw [hfold (fun _ _ _ => pure (defaultMember t (unflex sub.obj))) _ hp (by simp)]
-    · rw [initItem_tok_multi _ _ _ _ _ _ _ _ _ hb, initItem_tok_multi _ _ _ _ _ _ _ _ _ hb]
-      cases hd : ((i :: q0) :: rest).mapM (fun p => descend (.inc e) top tok (p.length + (Ty.inc e).nodes + 2) p) with
-      | error err => rfl
-      | ok targets =>
-        have htg : ∀ q ∈ targets, ∃ s, q = i :: s := by
-          have key : ∀ (ps ts : List (List Nat)), (∀ q ∈ ps, ∃ s, q = i :: s) →
-              ps.mapM (fun p => descend (.inc e) top tok (p.length + (Ty.inc e).nodes + 2) p) = .ok ts → ∀ q ∈ ts, ∃ s, q = i :: s := by
-            intro ps
-            induction ps with
-            | nil => intro ts _ h; simp [List.mapM_nil, pure, Except.pure] at h; subst h; simp
-            | cons P ps' ih =>
-              intro ts hps h
-              obtain ⟨t0, ts', h0, h1, rfl⟩ := mapM_cons_ok h
-              obtain ⟨s, rfl⟩ := hps P (by simp)
-              obtain ⟨s', rfl⟩ := descend_prefix _ _ _ _ _ _ h0
-              intro q hq
-              simp only [List.mem_cons] at hq
-              rcases hq with rfl | hq
-              · exact ⟨s ++ s', rfl⟩
-              · exact ih ts' (fun q' hq' => hps q' (by simp [hq'])) h1 q hq
-          exact key _ _ hp hd
-        have htne : targets ≠ [] := by
-          obtain ⟨t0, ts', _, _, rfl⟩ := mapM_cons_ok hd
-          simp
-        simp only [ok_bind]
-        have h1 : targets.any (nonScalarTouched (.inc e) (.arr xs)) =
-            targets.any (nonScalarTouched (.inc e) (.arr (padI xs i (zeroOf e)))) :=
-          any_congr' (fun q hq => by
-            obtain ⟨s, rfl⟩ := htg q hq
-            simp only [nonScalarTouched]
-            rw [(pad_tests xs i (zeroOf e) hz s).1])
-        have h2 : targets.any (switchesUnion (.arr xs)) = targets.any (switchesUnion (.arr (padI xs i (zeroOf e)))) :=
-          any_congr' (fun q hq => by obtain ⟨s, rfl⟩ := htg q hq; exact (pad_tests xs i (zeroOf e) hz s).2.1)
-        have h3 : targets.any (exprAbove (.arr xs)) = targets.any (exprAbove (.arr (padI xs i (zeroOf e)))) :=
-          any_congr' (fun q hq => by obtain ⟨s, rfl⟩ := htg q hq; exact (pad_tests xs i (zeroOf e) hz s).2.2)
-        rw [← h1, ← h2, ← h3, hfold (fun P => storeTok (.inc e) top tok P) _ htg htne]
+    · exact nob tok r hb
 
 /-- … and likewise when a designator list starting with `[i]` comes first -/
 theorem pregrow_desg (g : Nat) (e : Ty) (top : Bool) (xs : List Init) (i : Nat) (d : Nat) (toks : List ITok) (fl : Flags) :
@@ -720,6 +732,39 @@ theorem incLoop (elem : Ty) (hoe : subOk elem = true) (top : Bool) : ∀ (f f2 :
 theorem stringValue_none_eq (elem : Ty) (bytes : List Nat) (esz : Nat) :
     stringValue elem none bytes esz = stringValue elem (some (bytes.length / esz)) bytes esz := rfl
 
+/-- `parse_spec_inc` for an initializer that does not start with `{` (p14: a string literal) -/
+theorem parse_spec_inc_str {f : Nat} {elem : Ty} {tok : ITok} {r0 : List ITok} {c' : Init} {rest : List ITok} {r : Result}
+    (hoe : subOk elem = true) (hb : tok ≠ .lbrace)
+    (hp : initializer2 (f+1) (.inc elem) (tok :: r0) (newInit (.inc elem) true) = .ok (c', rest))
+    (hs : initFull (.inc elem) (tok :: r0) = .ok r) : (c', rest).1 = r.obj ∧ (c', rest).2 = r.rest := by
+  have hflex : newInit (.inc elem) true = .flex := rfl
+  rw [hflex] at hp
+  cases tok with
+  | lbrace => exact absurd rfl hb
+  | str id bytes esz =>
+    unfold initFull at hs
+    simp only at hs
+    split at hs
+    · rename_i hfit
+      obtain ⟨v, hv, hs⟩ := bind_eq_ok hs
+      cases hs
+      have hint : elem.isInteger = true := by
+        simp only [strFits, Bool.and_eq_true] at hfit; exact hfit.1
+      rw [initializer2] at hp
+      simp only [hint, ↓reduceIte] at hp
+      have hp' : stringInitializer elem bytes esz r0 (newInit (.array elem (bytes.length / esz)) false) = .ok (c', rest) := by
+        unfold stringInitializer at hp ⊢
+        simpa [newInit] using hp
+      have hz : shaped (.array elem (bytes.length / esz)) (newInit (.array elem (bytes.length / esz)) false) = true :=
+        shaped_newInit _ (by simpa [subOk] using hoe)
+      obtain ⟨h1, _, h3, _⟩ := stringInitializer_spec hz (hasExpr_newInit _ false) hint hp'
+      simp only [storeTok] at hv
+      rw [stringValue_none_eq, h3] at hv
+      cases hv
+      exact ⟨rfl, h1⟩
+    · cases hs
+  | _ => cases hs
+
 /-- **parser = 6.7.9 for an array of unknown bound**; in particular the bound `count_array_init_elements` computes is the
     specification's (largest index with an initializer, plus one) -/
 theorem parse_spec_inc {f : Nat} {elem : Ty} {toks : List ITok} {p : Init × List ITok} {r : Result} (hoe : subOk elem = true)
@@ -736,7 +781,15 @@ theorem parse_spec_inc {f : Nat} {elem : Ty} {toks : List ITok} {p : Init × Lis
   | cons tok r0 =>
     cases tok with
     | lbrace =>
-      rw [initializer2] at hp
+      cases hbl : bracedLit (.inc elem) r0 with
+      | some tr =>
+        -- p14/p15: `char s[] = { "…" }` is `char s[] = "…"`
+        obtain ⟨tok1, r1⟩ := tr
+        rw [← hflex, init2_bracedLit_eq _ hbl] at hp
+        rw [initFull_bracedLit hbl] at hs
+        exact parse_spec_inc_str hoe (bracedLit_stops hbl).2 hp hs
+      | none =>
+      rw [initializer2_inc_brace_none _ (bracedStr_none_of_bracedLit rfl hbl)] at hp
       cases f with
       | zero => cases hp
       | succ f1 =>
@@ -753,7 +806,7 @@ theorem parse_spec_inc {f : Nat} {elem : Ty} {toks : List ITok} {p : Init × Lis
       cases hlen
       have hN0 : 0 ≤ N := countLoop_ge elem _ _ _ _ _ _ _ hN
       unfold initFull at hs
-      simp only at hs
+      simp only [hbl] at hs
       obtain ⟨res, hres, hs⟩ := bind_eq_ok hs
       cases hs
       have hstart : unflex (newInit (.inc elem) true) = .arr [] := rfl
@@ -773,28 +826,7 @@ theorem parse_spec_inc {f : Nat} {elem : Ty} {toks : List ITok} {p : Init × Lis
       simp only
       rw [h3, ← h2, List.take_length]
       exact ⟨rfl, h4.symm⟩
-    | str id bytes esz =>
-      unfold initFull at hs
-      simp only at hs
-      split at hs
-      · rename_i hfit
-        obtain ⟨v, hv, hs⟩ := bind_eq_ok hs
-        cases hs
-        have hint : elem.isInteger = true := by
-          simp only [strFits, Bool.and_eq_true] at hfit; exact hfit.1
-        rw [initializer2] at hp
-        simp only [hint, ↓reduceIte] at hp
-        have hp' : stringInitializer elem bytes esz r0 (newInit (.array elem (bytes.length / esz)) false) = .ok (c', rest) := by
-          unfold stringInitializer at hp ⊢
-          simpa [newInit] using hp
-        have hz : shaped (.array elem (bytes.length / esz)) (newInit (.array elem (bytes.length / esz)) false) = true :=
-          shaped_newInit _ (by simpa [subOk] using hoe)
-        obtain ⟨h1, _, h3, _⟩ := stringInitializer_spec hz (hasExpr_newInit _ false) hint hp'
-        simp only [storeTok] at hv
-        rw [stringValue_none_eq, h3] at hv
-        cases hv
-        exact ⟨rfl, h1⟩
-      · cases hs
+    | str id bytes esz => exact parse_spec_inc_str hoe (by simp) (by rw [hflex]; exact hp) hs
     | _ => cases hs
 
 /-- **parser = 6.7.9** for every covered declared type (`tyOk`) without flexible array member (with: Lemmas/InitFlexLemmas.lean) -/
